@@ -82,6 +82,8 @@ class Havoc(Summary):
         self.name, self.raises, self.keep = name, raises, keep
 
     def apply(self, ex, st, fv, args, kwargs, node):
+        for a in list(args) + list(kwargs.values()):
+            st.escape(a)
         st.havoc_heap(keep=self.keep)
         outs = [(st.fork(), Raise(ex.mk_exc(c, f'{self.name} line {getattr(node, "lineno", "?")}')))
                 for c in self.raises]
@@ -252,13 +254,13 @@ class FnCheck(Check):
         ctx.map_functions = {}
         ctx.module_constants = dict(getattr(self, 'module_constants', {}))
         ex = Executor(ctx)
-        ctx.callees = self.callees(ex)
-        ctx.loops = self.loops(ex)
-        ctx.hooks = self.hooks(ex)
         st = State(ctx)
         b = Build(ex, st)
         ex.frames.append(Frame(mod, cdef, fn, self.target))
         self_v, args, kwargs = self.setup(b)
+        ctx.callees = self.callees(ex)
+        ctx.loops = self.loops(ex)
+        ctx.hooks = self.hooks(ex)
         st0 = st.snapshot()
         fv = FuncVal('repo', mod=mod, clsdef=cdef, fn=fn, self_v=self_v, qual=self.target)
         ex.frames.pop()
